@@ -1405,7 +1405,8 @@ cdef class NNPSBase:
         cdef int idx = dst_index*self.narrays + src_index
         if self.use_cache:
             if self.src_index != src_index \
-                or self.dst_index != dst_index:
+                or self.dst_index != dst_index \
+                or self.current_cache is None:
                 self.set_context(src_index, dst_index)
             return self.cache[idx].get_neighbors(src_index, d_idx, nbrs)
         else:
